@@ -18,8 +18,11 @@ func init() {
 			"identical decision skeletons (ordered trees of canonical branch atoms over the parameters, error-returning helpers inlined, `err != nil` mapped to `!ok`, loops summarised), both " +
 			"sides taken from the current tree, so a check changed in one twin only (a dropped length test, > vs >=, a different rune class, the length test moved before ToASCII) is reported " +
 			"with the differing atom; (R2) the group-count arithmetic of the IPv6 scanner — an address has exactly 8 sixteen-bit groups, an embedded IPv4 tail counts as two, '::' stands for " +
-			"at least one — is evaluated exactly for every (groups so far, ellipsis seen) at each accepting exit and compared with that specification. Not decided: full language equivalence of " +
-			"IsValidIPString / IsValidIPPortString with netip.ParseAddr / ParseAddrPort (two independently structured scanners; their panic-freedom and termination are C01).",
+			"at least one — is evaluated exactly for every (groups so far, ellipsis seen) at each accepting exit and compared with that specification; (R3) the addr:port layer — splitAddrPort's decision table over its six branch atoms equals " +
+			"netip's splitter plus its bracket rule (brackets are removed exactly when the host contains ':'), IsValidIPPortString is the conjunction split-ok && isUint16(port) && " +
+			"IsValidIPString(host) on the split parts, and one iteration of isUint16's digit loop evaluated at the thresholds of its comparisons equals strconv.ParseUint(_, 10, 16). " +
+			"Not decided: full language equivalence of the IPv4/IPv6 character scanners behind IsValidIPString with netip.ParseAddr (two independently structured scanners; their " +
+			"panic-freedom and termination are C01).",
 		Technique: "decision-skeleton extraction and structural twin comparison on SSA; exhaustive evaluation of the group-count predicates over their finite domain",
 		Note:      "Trusted: go/ssa, /verif/sa/skel. A behaviour-preserving but asymmetric rewrite of one twin's control flow is reported as 'cannot establish agreement'.",
 		DesignRef: "DESIGN.md section 4, C02",
